@@ -307,3 +307,9 @@ func vh_C20_L7_parked_handler_released_by_close() {
 	vh_C09_L6_parked_handshake_handler_released_by_close()
 }
 func vh_C20_L7_deadline_goroutine_keeps_terminal_error() { vh_C18_L4_read_deadline() }
+
+// C20.L8: several writers parked at the blocking-write gate are all released by a teardown,
+// also when one of them has just been handed the token (= C09.L11).
+func vh_C20_L8_teardown_releases_every_parked_writer() {
+	vh_C09_L11_teardown_closes_the_writers_channel()
+}
